@@ -188,14 +188,15 @@ theorem tc_accepted (k : Keys) (c : RCfg) (s : RState) (tc : TC)
   · simp [verifySyncInfo, verifyTCM, hc, h, StateT.run, pure, bind, StateT.bind, StateT.pure, get, getThe, MonadStateOf.get, StateT.get]
 
 open HsVerif.Proofs in
-/-- **The certificate moves a replica that is still in the timed-out view (or behind it) on by one
-view**: a verifying TC for view `v ≥` the replica's view makes `advanceView` end in the next view. -/
+/-- **The certificate moves a replica that is still in the timed-out view (or behind it) to the view
+after the timed-out one**: a verifying TC for view `v ≥` the replica's view makes `advanceView` end in
+view `v + 1` (RESTATED for `EnterViewAfter`: was `s.view + 1`, which left a lagging replica behind). -/
 theorem tc_moves (k : Keys) (c : RCfg) (s : RState) (tc : TC)
     (h : verifyTC (env k c s) tc = true) (hv : s.view ≤ tc.view) :
-    ((advanceView k c { qc := none, tc := some tc, agg := none }).run s).2.view = s.view + 1 := by
+    ((advanceView k c { qc := none, tc := some tc, agg := none }).run s).2.view = tc.view + 1 := by
   have := run_res_of_triple (advanceView k c { qc := none, tc := some tc, agg := none })
     (fun s' => s'.view = s.view ∧ Accepts k c { qc := none, tc := some tc, agg := none } s' tc.view)
-    (fun _ s' => s'.view = s.view + 1) (advanceView_progress k c _ s.view tc.view hv) s ⟨rfl, tc_accepted k c s tc h⟩
+    (fun _ s' => s'.view = tc.view + 1) (advanceView_progress k c _ s.view tc.view hv) s ⟨rfl, tc_accepted k c s tc h⟩
   exact this
 
 end HsVerif.Props.C08
